@@ -180,6 +180,12 @@ pub fn run_c11(ctx: &mut Ctx) {
                     ctx.sample("product", || json!({"a": la.to_string(), "b": lb.to_string(), "matches(true,false)": true}));
                 }
                 judge_pair(ctx, &la, &lb);
+                if ea == 0 && eb == 0 {
+                    // the same operands rebuilt through the unchecked constructor from their own parts
+                    ctx.count_n("product:operand rebuilt by from_raw_parts_unchecked", 2);
+                    judge_pair(ctx, &raw_route(&la), &lb);
+                    judge_pair(ctx, &la, &raw_route(&lb));
+                }
             }
         }
     }
@@ -321,8 +327,23 @@ struct Item {
 }
 
 /// Same logical value along a different route.
+pub const ROUTE_RAW: &str = "id and tlang rebuilt by from_raw_parts_unchecked(into_parts, Some(boxed variants))";
+fn raw_rebuild(li: &unic_langid_impl::LanguageIdentifier) -> unic_langid_impl::LanguageIdentifier {
+    let (lang, s, rg, v) = li.clone().into_parts();
+    unic_langid_impl::LanguageIdentifier::from_raw_parts_unchecked(lang, s, rg, Some(v.into_boxed_slice()))
+}
+fn raw_route(l: &Locale) -> Locale {
+    let mut m = l.clone();
+    m.id = raw_rebuild(&l.id);
+    if let Some(t) = l.extensions.transform.tlang() {
+        let _ = m.extensions.transform.set_tlang(raw_rebuild(t));
+    }
+    m
+}
+
 fn reroute(l: &Locale, r: &mut Rng) -> (Locale, &'static str) {
-    match r.below(6) {
+    match r.below(7) {
+        6 => (raw_route(l), ROUTE_RAW),
         0 => (l.to_string().parse().unwrap_or_else(|_| l.clone()), "reparse"),
         1 => {
             let up = l.to_string().to_ascii_uppercase().replace('-', "_");
@@ -587,7 +608,11 @@ pub fn c12_replay(v: &Value) -> Vec<Fail> {
         return vec![fail("bad-replay", "need a and b (canonical strings); route-specific witnesses are replayed by re-running with the recorded seed")];
     };
     match (a.parse::<Locale>(), b.parse::<Locale>()) {
-        (Ok(a), Ok(b)) => c12_check_two(&a, &b),
+        (Ok(a), Ok(b)) => {
+            let a = if v["route_a"].as_str() == Some(ROUTE_RAW) { raw_route(&a) } else { a };
+            let b = if v["route_b"].as_str() == Some(ROUTE_RAW) { raw_route(&b) } else { b };
+            c12_check_two(&a, &b)
+        }
         _ => vec![fail("bad-replay", "operands do not parse")],
     }
 }
